@@ -437,12 +437,31 @@ func (a *A) ruleTrailingWildcards(fn *ssa.Function) {
 		}
 		// "the rest of the pattern is nothing but '%'" written as a for-all loop: a loop over the pattern
 		// (or its rest) that returns false at the first byte that is not '%' and true when it runs out
-		isPat := func(v ssa.Value) bool {
+		var isPat func(v ssa.Value) bool
+		isPat = func(v ssa.Value) bool {
 			if v == pat {
 				return true
 			}
 			if sl, ok := v.(*ssa.Slice); ok && sl.X == pat {
 				return true
+			}
+			// []byte(rest) / []rune(rest), and the rest carried in a variable (every value it can hold is the
+			// pattern or a rest of it; the "" of a path that has already refused aside)
+			if cv, ok := v.(*ssa.Convert); ok {
+				return isPat(cv.X)
+			}
+			if _, ok := v.(*ssa.Phi); ok {
+				some := false
+				for _, l := range phiLeaves(v) {
+					if k, isK := l.(*ssa.Const); isK && k.Value != nil && k.Value.Kind() == constant.String && constant.StringVal(k.Value) == "" {
+						continue
+					}
+					if _, isPhi := l.(*ssa.Phi); isPhi || !isPat(l) {
+						return false
+					}
+					some = true
+				}
+				return some
 			}
 			return false
 		}
